@@ -427,7 +427,7 @@ func (w *World) Vote(a *Actor, id uint64, choice disputetypes.VoteEnum) PhaseRes
 
 func (w *World) AddEvidence(a *Actor, id uint64, rep oracletypes.MicroReport) PhaseResult {
 	r := rep
-	return w.do("AddEvidence", Rec{"who": a.Name, "id": int(id), "rep": w.Name(rep.Reporter), "q": w.QN(rep.QueryId), "rblock": int(rep.BlockNumber)},
+	return w.do("AddEvidence", Rec{"facts": w.evidenceFacts(rep), "who": a.Name, "id": int(id), "rep": w.Name(rep.Reporter), "q": w.QN(rep.QueryId), "rblock": int(rep.BlockNumber)},
 		&disputetypes.MsgAddEvidence{CallerAddress: a.Addr.String(), DisputeId: id, Reports: []*oracletypes.MicroReport{&r}})
 }
 
